@@ -188,6 +188,29 @@ def unicode_table(chars):
     return run_lines(RUNNER_BIN, [json.dumps({"op": "unicode", "chars": "".join(sorted(chars))})])[0]["ok"]
 
 
+_RUST_LOWER = {}
+
+
+def rust_is_lowercase(ch):
+    """`char::is_lowercase` as Rust std answers it (ASCII directly, every other character through the runner's `unicode` op,
+    remembered) - not Python's `str.islower`, whose Unicode version may differ from std's"""
+    if ord(ch) < 128:
+        return "a" <= ch <= "z"
+    if ch not in _RUST_LOWER:
+        _RUST_LOWER.update({r[0]: bool(r[2]) for r in unicode_table({ch})})
+    return _RUST_LOWER.get(ch, False)
+
+
+def rust_all_uppercase(s, facts=None):
+    """typeshare's `is_all_uppercase` (rename.rs, since the fix "a name with non-ASCII lowercase letters is not all uppercase"):
+    the name has no lowercase letter of any script.  `facts`: rows of `unicode_table` by character, when the caller has them"""
+    if facts is not None:
+        return not any(("a" <= ch <= "z") if ord(ch) < 128 else bool(facts[ch][2]) for ch in s)
+    for row in unicode_table({ch for ch in s if ord(ch) > 127 and ch not in _RUST_LOWER}):
+        _RUST_LOWER[row[0]] = bool(row[2])
+    return not any(rust_is_lowercase(ch) for ch in s)
+
+
 def snake_table(names):
     """`convert_case` snake-casing (external to typeshare) of `names` and of everything rename_all can
     make of them, computed by the real crates through the runner"""
